@@ -284,6 +284,17 @@ class ChildWorld:
                 o = st.load_rdtrajectory(path)
             objs[nm] = (kind, o)
             ev["phys"] = P.phys(o)
+        elif name == "fs_raw":
+            # ["fs_raw", object name it stands for, path, dictionary]: a hand-written file (keys omitted as a person would)
+            pth = _os.path.join(self.sandbox, op[2])
+            _os.makedirs(_os.path.dirname(pth), exist_ok=True)
+            with open(pth, "w", encoding="utf-8") as f:
+                _json.dump(op[3], f)
+        elif name == "fs_touch_units":
+            # the caller edits, in place, the units system of an object it got from a reader (its own object, its own business)
+            kind, o = objs[op[1]]
+            o.units_system["time"] = "min"
+            o.units_system["quantity"] = "mol"
         elif name == "fs_chdir":
             _os.chdir(_os.path.join(self.sandbox, op[1]))
         elif name == "fs_mkdir":
